@@ -178,6 +178,12 @@ func (s *service) GetChunkHashes(ctx context.Context, addr boson.Address, pyrami
 		bmtWriter := bmt.NewBmtWriter(&noopChainWriter{})
 		for hash, data := range pyramid {
 			var ref boson.Address
+			// the BMT hasher ignores input beyond its capacity, so the length has to be
+			// bounded for the hash comparison below to make this a valid chunk.
+			if len(data) > boson.ChunkSize+boson.SpanSize {
+				err = ErrInvalidPyramid
+				return
+			}
 			args := pipeline.PipeWriteArgs{Data: data}
 			err = bmtWriter.ChainWrite(&args)
 			if err != nil {
